@@ -41,7 +41,7 @@ def addresses(aw, r, n_rand):
 def cases(tier, seed):
     n = 24 if tier == "quick" else 160
     out = []
-    fams = ["SDR1", "SDR2", "DDR2x", "DDR3x2", "DDR3x4", "LPDDR", "SDR1", "DDR4x4"]
+    fams = ["SDR1", "SDR2", "DDR2x", "DDR3x2", "DDR3x4", "LPDDR", "SDR1", "DDR4x4", "LPDDR4x8", "LPDDR5x1", "SDR2"]
     for k in range(n):
         r = random.Random("C06/%d/%s/%d" % (seed, tier, k))
         mem = corecfg.synth_mem(r, fams[k % len(fams)])
